@@ -171,6 +171,8 @@ class Direct:
             return self.E(e[1], i, j, n) - self.E(e[2], i, j, n)
         if k == "div":
             return self.E(e[1], i, j, n) / e[2]
+        if k == "scale":
+            return e[2] * self.E(e[1], i, j, n)
         if k == "call":
             return self.scope[e[1]](self.E(e[2], i, j, n), idx)
         if k == "callseries":
